@@ -158,6 +158,9 @@ func runC18TCP(c C18TCP, info *kit.Info) *kit.Finding {
 		defer ctgt.Close()
 		cl, err := net.DialTimeout("tcp", front.Addr, 3*time.Second)
 		if err != nil {
+			if kit.EnvNetError(err) {
+				return nil
+			}
 			return kit.Violation("robust:listener-stopped", "%s: cannot connect to the proxy any more: %v", when, err)
 		}
 		defer cl.Close()
@@ -211,6 +214,10 @@ func runC18TCP(c C18TCP, info *kit.Info) *kit.Finding {
 		}
 		cl, err := net.DialTimeout("tcp", front.Addr, 3*time.Second)
 		if err != nil {
+			if kit.EnvNetError(err) {
+				info.Skipped = "host out of ports: " + err.Error()
+				break
+			}
 			return kit.Violation("robust:listener-stopped", "connection %d: cannot connect to the proxy: %v", i, err)
 		}
 		clients = append(clients, cl)
